@@ -13,7 +13,7 @@ import z3
 
 from ..fxsym import interp as ix
 from ..fxsym.capture import capture
-from ..fxsym.programs import SIZES, build, programs, spec_name
+from ..fxsym.programs import SIZES, build, programs, root_specs, spec_name
 from ..par import run_tasks
 from ..report import CONCRETE, INCONCLUSIVE, Report, describe_function
 from ..sym.runner import discharge
@@ -125,6 +125,8 @@ def task_program(spec: Any, replace: bool, timeout: float) -> List[Dict[str, Any
             recs.append({"type": "violation", "key": f"C16/{name}/runs-without-error",
                          "what": f"unit_scale({name}) fails on the real TorchDynamo path: {cap.error}",
                          "replay": {"info": {"spec": _plain(spec), "replace": replace}, "obligation": "run", "model": {}}})
+        elif cap.graphs == 0:
+            recs += _never_transformed("C16", name, spec, _transform(replace), {"spec": _plain(spec), "replace": replace})
         else:
             recs.append({"type": "obligation", "name": f"{name}/capture", "status": INCONCLUSIVE, "queries": 0,
                          "detail": f"Dynamo produced {cap.graphs} graphs (graph break): outside the single-graph program family"})
@@ -134,6 +136,28 @@ def task_program(spec: Any, replace: bool, timeout: float) -> List[Dict[str, Any
     recs += discharge("C16", name, harness(spec, cap, replace), replay_c16, timeout, base_info={"spec": _plain(spec), "replace": replace},
                       skip_definedness=True)
     return recs
+
+
+def _never_transformed(pid: str, name: str, spec: Any, transform: Any, info: Dict[str, Any]) -> List[Dict[str, Any]]:
+    """The library's backend was never invoked (TorchDynamo did not hand over a graph).  If the returned module then computes
+    exactly what an untransformed copy with the same parameters computes, the transform silently did nothing."""
+    import copy as _copy
+    p = build(spec)
+    x = p.example_inputs()
+    torch._dynamo.reset()
+    tm = transform(p)
+    out_t = tm(*[v.clone() for v in x])
+    torch._dynamo.reset()
+    plain = build(spec)
+    plain.load_state_dict({k: v for k, v in tm.state_dict().items()})
+    out_p = plain(*[v.clone() for v in x])
+    same = isinstance(out_t, torch.Tensor) and out_t.shape == out_p.shape and torch.equal(out_t, out_p)
+    if same:
+        return [{"type": "violation", "key": f"{pid}/{name}/transform-applied",
+                 "what": f"{spec_name(spec)}: the transform's backend was never invoked (TorchDynamo traced no graph for a root torch.nn layer) and the returned module "
+                         f"computes bit for bit what the untransformed module computes with the same parameters: the transform silently did nothing",
+                 "replay": {"info": {**info, "never": True}, "obligation": "transform-applied", "model": {}}}]
+    return [{"type": "obligation", "name": f"{name}/capture", "status": INCONCLUSIVE, "queries": 0, "detail": "no graph captured but outputs differ from the untransformed module"}]
 
 
 def task_weights() -> List[Dict[str, Any]]:
@@ -178,7 +202,7 @@ def run(rep: Report, only: str = "") -> None:
     from unit_scaling.transforms import _unit_scale as us
     thorough = rep.tier == "thorough"
     timeout = 60 if thorough else 30
-    specs = programs(rep.tier)
+    specs = programs(rep.tier) + root_specs()
     tasks: List[Any] = [(task_program, (s, False, timeout)) for s in specs]
     tasks += [(task_program, (s, True, timeout)) for s in specs if any(k == "tanh" or "tanh" in b for k, b in s[0])][: (200 if thorough else 40)]
     tasks.append((task_weights, ()))
@@ -205,4 +229,8 @@ def replay(data: Dict[str, Any]) -> Tuple[bool, str]:
         v = [x for x in r if x.get("type") == "violation"]
         return bool(v), str(v or "ok")
     info = data.get("info") or {}
+    if info.get("never"):
+        r = _never_transformed("C16", "replay", _unplain(info["spec"]), _transform(bool(info.get("replace"))), info)
+        v = [x for x in r if x.get("type") == "violation"]
+        return bool(v), str([x["what"] for x in v] or "transform applied")
     return concrete_compare(_unplain(info["spec"]), bool(info.get("replace")))
